@@ -17,6 +17,7 @@ mod txv;
 mod syncnodes;
 mod produce;
 mod atr;
+mod dispatch;
 
 #[global_allocator]
 static GLOBAL: alloc::Counting = alloc::Counting;
@@ -79,6 +80,10 @@ fn main() {
         "atr-worker" => atr::worker(seed, tier, args[4].parse().unwrap_or(0)),
         "atr-flags" => println!("{}", atr::calibrate()),
         "atr-one" => atr::one(&args[2..].join(" ")),
+        "disp" => dispatch::run(seed, tier, out),
+        "disp-worker" => dispatch::worker(seed, tier, args[4].parse().unwrap_or(0)),
+        "disp-explore" => dispatch::explore(&args[2]),
+        "disp-witness" => dispatch::witness_one(&args[2]),
         _ => {
             eprintln!("unknown suite {}", suite);
             std::process::exit(2);
